@@ -33,12 +33,12 @@ PROPS["C13"] = dict(
     dict(name="c13-indep", harness="C13_copy.cpp", entries=["harness_c13"], units=C13_UNITS, unwind=26, unwindset=["strlen.0:64", "bcmp.0:64"], eh=False, checks="mem", object_bits=13, witness_any=True,
          shards={"quick": _c13_shards([1], [0], [B_LOWDIM], [1], chunks=_C13_QUICK_CHUNKS, level1=False) + _c13_shards([1], [2], [B_LOWDIM], [1], chunks=[13, 18, 23, 24, 25], level1=False),
                  "thorough": _c13_shards([0, 1], [0, 2], [B_LOWDIM], [1]) + _c13_shards([1], [0, 2], [B_LOWDIM], [0, 2]) + _c13_shards([1], [1, 4], [B_LOWDIM], [1]) + _c13_shards([1], [0, 2], [B_TET], [1])},
-         timeout={"quick": 300, "thorough": 1200}, mem_gb=6,
+         timeout={"quick": 450, "thorough": 1200}, mem_gb=6,
          bounds=_C13_BOUNDS + "; quick: geometry kernel (its copy/assignment runs TopologyKernel's and ResourceManager's), copy construction and assignment onto a non-empty mesh, B_LOWDIM with one pending deleted edge; thorough (not measured as a whole): all 26 chunks for both mesh types with a pending deleted edge, geometry kernel also with no / a pending deleted vertex, + assignment onto an empty mesh and copy of a copy, + B_TET (geometry kernel, pending deleted edge)"),
     dict(name="c13-kinds", harness="C13_copy.cpp", entries=["harness_c13"], units=C13_UNITS, unwind=26, unwindset=["strlen.0:64", "bcmp.0:64"], eh=False, checks="mem", object_bits=13, witness_any=True,
          shards={"quick": _c13_shards([0, 1], [1, 3, 4], [B_LOWDIM], [0], chunks=[0], level1=False) + _c13_shards([0], [0, 2], [B_LOWDIM], [1], chunks=[0], level1=False),
                  "thorough": _c13_shards([0, 1], [1, 3, 4], [B_TET], [1], chunks=[0]) + _c13_shards([0, 1], [3], [B_LOWDIM], [1, 2], chunks=[0])},
-         timeout={"quick": 300, "thorough": 1200}, mem_gb=6,
+         timeout={"quick": 450, "thorough": 1200}, mem_gb=6,
          bounds=_C13_BOUNDS + "; assignment onto an empty mesh, self-assignment, copy of a copy (intermediate destroyed before the checks): equality checks + first chunk of mutations (delete_vertex of vertices 0 and 1); quick also runs that chunk for the plain TopologyKernel with copy construction / assignment onto a non-empty mesh"),
     dict(name="c13-mixed", harness="C13_mixed.cpp", entries=["harness_c13_mixed"], units=C13_MIXED_UNITS, unwind=26, unwindset=["strlen.0:64", "bcmp.0:64"], eh=False, checks="mem",
          object_bits=13, tiers=["thorough"], shards=[{0: k, 1: p} for k in (0, 1, 2) for p in (0, 1)], timeout=1200, mem_gb=8,
